@@ -7,12 +7,12 @@ Open Scope N_scope.
 Open Scope string_scope.
 
 Definition tk (s : string) := s2l s.
-Definition T (s : string) : taskarg := Some (tk s, true).
+Definition T (s : string) : targ := TA (Some (tk s, true)).
 
 (* d -> {b, c}, b -> a, c -> a, e -> s; declared out of order, with a re-add and a duplicate edge *)
 Definition gops : list gop :=
   [ GDep (T "d") [T "b"; T "c"]; GDep (T "b") [T "a"]; GAdd (T "b"); GDep (T "c") [T "a"];
-    GDep (T "e") [T "s"]; GAdd (T "s"); GRetries (T "c") 1; GDep (T "c") [T "a"] ].
+    GDep (T "e") [T "s"]; GAdd (T "s"); GRetries (TL (tk "c")) 1; GDep (TL (tk "c")) [TL (tk "a")] ].
 Definition g := build_graph gops.
 Definition cf := mkConfig false 2.
 
